@@ -355,6 +355,24 @@ def run(ctx):
                 k += 1
                 ctx.evaluations += 1
                 ctx.distinct(["nl", nl, bom, entry])
+    # ... and the same for a text whose values contain the OTHER characters that str.splitlines() treats as line boundaries
+    # (U+2028, U+2029, NEL, FF, VT, FS, GS, RS - text pasted from a word processor): whatever the library makes of such a
+    # line, it makes the same of it under LF and under CRLF (round 12, seeded/C06l: a fast path text.split("\n") when the
+    # text has no CR, splitlines() otherwise)
+    for j, sep in enumerate(["\u2028", "\u2029", "\x85", "\x0c", "\x0b", "\x1c", "\x1d", "\x1e"]):
+        ev2 = list(events) + [f'9000 = E "lyric Lo{sep}rem"', f'9001 = E "section A{sep}B"']
+        song2 = [ln if not ln.startswith("Name") else f'Name = "Song{sep}Name"' for ln in song]
+        if not any(ln.startswith("Name") for ln in song2):
+            song2 = list(song2) + [f'Name = "Song{sep}Name"']
+        t_lf = build(song2, sync, ev2, tracks, base_order, nl="\n")
+        outs = []
+        for nl in ("\n", "\r\n"):
+            kind, val, _ = parse_logged(t_lf.replace("\n", nl))
+            outs.append(_obs_digest(val) if kind == "chart" else "raised:" + exc_name(val))
+        recs.append({"id": f"nlb-{j}", "props": ["C06"], "kind": "same",
+                     "what": "independent-of-newline-style-and-byte-order-mark", "a": outs[0], "b": outs[1]})
+        texts[f"nlb-{j}"] = repr(("line-boundary character inside values", sep))
+        ctx.evaluations += 2
     # unknown sections with header-like and brace-like (indented) body lines at every position
     unknown_bodies = [
         ("Mystery", ["0 = N 0 0", "  [ExpertSingle]", "  {", "  }", "garbage", ""]),
